@@ -14,11 +14,61 @@ pub struct MatchedSequenceIndices {
     pub link_value: ScalarValue,
     pub matched_rows: Vec<(String, RowIndex)>,
 }
+pub enum SequenceLink {
+    FollowedBy,
+    PrecededBy,
+}
+pub struct EventTarget {
+    pub event: String,
+}
+pub struct EventSequence {
+    pub head: EventTarget,
+    pub links: Vec<(SequenceLink, EventTarget)>,
+}
 pub struct SequenceMatcher {
+    pub sequence: EventSequence,
     pub time_field: String,
 }
 
 impl SequenceMatcher {
+    pub fn match_in_group(
+        &self,
+        group: &GroupedRowIndices,
+        zones_by_event_type: &ZoneMap<String, Vec<CandidateZone>>,
+    ) -> (r: Vec<MatchedSequenceIndices>)
+     requires
+         self.sequence.links@.len() >= 1 ==> sweep_pre(*self, *group, *zones_by_event_type, self.sequence.head.event@, self.sequence.links@[0].1.event@),
+     ensures
+         self.sequence.links@.len() == 1 && self.sequence.links@[0].0 is FollowedBy ==> fb_post(*self, *group, *zones_by_event_type, self.sequence.head.event@, self.sequence.links@[0].1.event@, r@), // OBL:C15.matcher.in_group.followed_by_runs_the_forward_sweep_on_head_then_target
+         self.sequence.links@.len() == 1 && self.sequence.links@[0].0 is PrecededBy ==> pb_post(*self, *group, *zones_by_event_type, self.sequence.head.event@, self.sequence.links@[0].1.event@, r@), // OBL:C15.matcher.in_group.preceded_by_runs_the_backward_sweep_on_head_then_target
+{
+        // Handle single link (A FOLLOWED BY B or A PRECEDED BY B)
+        if self.sequence.links.len() == 1 {
+            let (link_type, target) = &self.sequence.links[0];
+            let event_type_a = &self.sequence.head.event;
+            let event_type_b = &target.event;
+
+            if false {
+                ();
+            }
+
+            match link_type {
+                SequenceLink::FollowedBy => {
+                    self.match_followed_by(group, event_type_a, event_type_b, zones_by_event_type)
+                }
+                SequenceLink::PrecededBy => {
+                    self.match_preceded_by(group, event_type_a, event_type_b, zones_by_event_type)
+                }
+            }
+        } else {
+            // Multiple links - for now, return empty (Phase 4 feature)
+            if false {
+                ();
+            }
+            Vec::new()
+        }
+    }
+
     pub fn match_followed_by(
         &self,
         group: &GroupedRowIndices,
@@ -27,14 +77,14 @@ impl SequenceMatcher {
         zones_by_event_type: &ZoneMap<String, Vec<CandidateZone>>,
     ) -> (r: Vec<MatchedSequenceIndices>)
      requires
-         rows(*group, event_type_a).len() + rows(*group, event_type_b).len() < usize::MAX,
-         rows(*group, event_type_a).len() > 0 && rows(*group, event_type_b).len() > 0 ==> zones_of(*zones_by_event_type, event_type_a) is Some && zones_of(*zones_by_event_type, event_type_b) is Some,
-         rows(*group, event_type_a).len() > 0 && rows(*group, event_type_b).len() > 0 ==> sorted_by_time(*self, zones_of(*zones_by_event_type, event_type_a)->Some_0, rows(*group, event_type_a)),
-         rows(*group, event_type_a).len() > 0 && rows(*group, event_type_b).len() > 0 ==> sorted_by_time(*self, zones_of(*zones_by_event_type, event_type_b)->Some_0, rows(*group, event_type_b)),
+         rows(*group, event_type_a@).len() + rows(*group, event_type_b@).len() < usize::MAX,
+         rows(*group, event_type_a@).len() > 0 && rows(*group, event_type_b@).len() > 0 ==> zones_of(*zones_by_event_type, event_type_a@) is Some && zones_of(*zones_by_event_type, event_type_b@) is Some,
+         rows(*group, event_type_a@).len() > 0 && rows(*group, event_type_b@).len() > 0 ==> sorted_by_time(*self, zones_of(*zones_by_event_type, event_type_a@)->Some_0, rows(*group, event_type_a@)),
+         rows(*group, event_type_a@).len() > 0 && rows(*group, event_type_b@).len() > 0 ==> sorted_by_time(*self, zones_of(*zones_by_event_type, event_type_b@)->Some_0, rows(*group, event_type_b@)),
      ensures
-         forall|n: int| 0 <= n < r@.len() ==> fb_sound(*self, *group, *zones_by_event_type, event_type_a, event_type_b, #[trigger] r@[n]), // OBL:C15.matcher.followed_by.every_pair_is_linked_ordered_and_passes_where
-         forall|i: int, j: int| fb_partner(*self, *group, *zones_by_event_type, event_type_a, event_type_b, i, j) ==> exists|n: int| 0 <= n < r@.len() && is_pair(#[trigger] r@[n], *group, event_type_a, event_type_b, i, j, true), // OBL:C15.matcher.followed_by.every_a_with_a_qualifying_nearest_b_is_matched
-         r@.len() <= rows(*group, event_type_a).len(), // OBL:C15.matcher.followed_by.at_most_one_pair_per_a
+         forall|n: int| 0 <= n < r@.len() ==> fb_sound(*self, *group, *zones_by_event_type, event_type_a@, event_type_b@, #[trigger] r@[n]), // OBL:C15.matcher.followed_by.every_pair_is_linked_ordered_and_passes_where
+         forall|i: int, j: int| fb_partner(*self, *group, *zones_by_event_type, event_type_a@, event_type_b@, i, j) ==> exists|n: int| 0 <= n < r@.len() && is_pair(#[trigger] r@[n], *group, event_type_a@, event_type_b@, i, j, true), // OBL:C15.matcher.followed_by.every_a_with_a_qualifying_nearest_b_is_matched
+         r@.len() <= rows(*group, event_type_a@).len(), // OBL:C15.matcher.followed_by.at_most_one_pair_per_a
 {
         let a_indices = rows_of(group, event_type_a);
         let b_indices = rows_of(group, event_type_b);
@@ -62,14 +112,14 @@ impl SequenceMatcher {
         // Two-pointer matching: advance both pointers through sorted indices
         while a_ptr < a_indices.len() && b_ptr < b_indices.len() 
          invariant
-             a_indices@ == rows(*group, event_type_a), b_indices@ == rows(*group, event_type_b), a_indices@.len() + b_indices@.len() < usize::MAX,
-             zones_of(*zones_by_event_type, event_type_a) == Some(zones_a@), zones_of(*zones_by_event_type, event_type_b) == Some(zones_b@),
+             a_indices@ == rows(*group, event_type_a@), b_indices@ == rows(*group, event_type_b@), a_indices@.len() + b_indices@.len() < usize::MAX,
+             zones_of(*zones_by_event_type, event_type_a@) == Some(zones_a@), zones_of(*zones_by_event_type, event_type_b@) == Some(zones_b@),
              sorted_by_time(*self, zones_a@, a_indices@), sorted_by_time(*self, zones_b@, b_indices@),
              a_ptr <= a_indices@.len(), b_ptr <= b_indices@.len(), results@.len() <= a_ptr,
              comparisons <= a_ptr + b_ptr, timestamp_passed <= a_ptr, where_passed <= a_ptr, where_failed <= a_ptr,
              forall|i: int, j: int| a_ptr <= i < a_indices@.len() && 0 <= j < b_ptr ==> ts_of(*self, zones_b@, #[trigger] b_indices@[j]) < ts_of(*self, zones_a@, #[trigger] a_indices@[i]),
-             forall|n: int| 0 <= n < results@.len() ==> fb_sound(*self, *group, *zones_by_event_type, event_type_a, event_type_b, #[trigger] results@[n]),
-             forall|i: int, j: int| i < a_ptr && fb_partner(*self, *group, *zones_by_event_type, event_type_a, event_type_b, i, j) ==> exists|n: int| 0 <= n < results@.len() && is_pair(#[trigger] results@[n], *group, event_type_a, event_type_b, i, j, true),
+             forall|n: int| 0 <= n < results@.len() ==> fb_sound(*self, *group, *zones_by_event_type, event_type_a@, event_type_b@, #[trigger] results@[n]),
+             forall|i: int, j: int| i < a_ptr && fb_partner(*self, *group, *zones_by_event_type, event_type_a@, event_type_b@, i, j) ==> exists|n: int| 0 <= n < results@.len() && is_pair(#[trigger] results@[n], *group, event_type_a@, event_type_b@, i, j, true),
          decreases (a_indices@.len() - a_ptr) + (b_indices@.len() - b_ptr),
 {
              let ghost res0 = results@;
@@ -131,19 +181,19 @@ impl SequenceMatcher {
              proof {
                  assert(forall|n: int| 0 <= n < res0.len() ==> results@[n] == res0[n]);
                  if results@.len() > res0.len() {
-                     assert(is_pair(results@[res0.len() as int], *group, event_type_a, event_type_b, ap0, bp0, true));
+                     assert(is_pair(results@[res0.len() as int], *group, event_type_a@, event_type_b@, ap0, bp0, true));
                  }
                  if a_ptr as int == ap0 + 1 {
-                     assert forall|i: int, j: int| i < a_ptr && fb_partner(*self, *group, *zones_by_event_type, event_type_a, event_type_b, i, j) implies exists|n: int| 0 <= n < results@.len() && is_pair(#[trigger] results@[n], *group, event_type_a, event_type_b, i, j, true) by {
+                     assert forall|i: int, j: int| i < a_ptr && fb_partner(*self, *group, *zones_by_event_type, event_type_a@, event_type_b@, i, j) implies exists|n: int| 0 <= n < results@.len() && is_pair(#[trigger] results@[n], *group, event_type_a@, event_type_b@, i, j, true) by {
                          if i < ap0 {
-                             let n0 = choose|n: int| 0 <= n < res0.len() && is_pair(#[trigger] res0[n], *group, event_type_a, event_type_b, i, j, true);
-                             assert(is_pair(results@[n0], *group, event_type_a, event_type_b, i, j, true));
+                             let n0 = choose|n: int| 0 <= n < res0.len() && is_pair(#[trigger] res0[n], *group, event_type_a@, event_type_b@, i, j, true);
+                             assert(is_pair(results@[n0], *group, event_type_a@, event_type_b@, i, j, true));
                          } else {
                              assert(i == ap0);
                              if j < bp0 { assert(ts_of(*self, zones_b@, b_indices@[j]) < ts_of(*self, zones_a@, a_indices@[i])); }
                              if j > bp0 { assert(ts_of(*self, zones_b@, b_indices@[bp0]) < ts_of(*self, zones_a@, a_indices@[i])); }
                              assert(j == bp0);
-                             assert(is_pair(results@[res0.len() as int], *group, event_type_a, event_type_b, i, j, true));
+                             assert(is_pair(results@[res0.len() as int], *group, event_type_a@, event_type_b@, i, j, true));
                          }
                      }
                  } else {
@@ -169,14 +219,14 @@ impl SequenceMatcher {
         zones_by_event_type: &ZoneMap<String, Vec<CandidateZone>>,
     ) -> (r: Vec<MatchedSequenceIndices>)
      requires
-         rows(*group, event_type_a).len() + rows(*group, event_type_b).len() < usize::MAX,
-         rows(*group, event_type_a).len() > 0 && rows(*group, event_type_b).len() > 0 ==> zones_of(*zones_by_event_type, event_type_a) is Some && zones_of(*zones_by_event_type, event_type_b) is Some,
-         rows(*group, event_type_a).len() > 0 && rows(*group, event_type_b).len() > 0 ==> sorted_by_time(*self, zones_of(*zones_by_event_type, event_type_a)->Some_0, rows(*group, event_type_a)),
-         rows(*group, event_type_a).len() > 0 && rows(*group, event_type_b).len() > 0 ==> sorted_by_time(*self, zones_of(*zones_by_event_type, event_type_b)->Some_0, rows(*group, event_type_b)),
+         rows(*group, event_type_a@).len() + rows(*group, event_type_b@).len() < usize::MAX,
+         rows(*group, event_type_a@).len() > 0 && rows(*group, event_type_b@).len() > 0 ==> zones_of(*zones_by_event_type, event_type_a@) is Some && zones_of(*zones_by_event_type, event_type_b@) is Some,
+         rows(*group, event_type_a@).len() > 0 && rows(*group, event_type_b@).len() > 0 ==> sorted_by_time(*self, zones_of(*zones_by_event_type, event_type_a@)->Some_0, rows(*group, event_type_a@)),
+         rows(*group, event_type_a@).len() > 0 && rows(*group, event_type_b@).len() > 0 ==> sorted_by_time(*self, zones_of(*zones_by_event_type, event_type_b@)->Some_0, rows(*group, event_type_b@)),
      ensures
-         forall|n: int| 0 <= n < r@.len() ==> pb_sound(*self, *group, *zones_by_event_type, event_type_a, event_type_b, #[trigger] r@[n]), // OBL:C15.matcher.preceded_by.every_pair_is_linked_strictly_ordered_and_passes_where
-         forall|i: int, j: int| pb_partner(*self, *group, *zones_by_event_type, event_type_a, event_type_b, i, j) ==> exists|n: int| 0 <= n < r@.len() && is_pair(#[trigger] r@[n], *group, event_type_a, event_type_b, i, j, false), // OBL:C15.matcher.preceded_by.every_a_with_a_qualifying_latest_earlier_b_is_matched
-         r@.len() <= rows(*group, event_type_a).len(), // OBL:C15.matcher.preceded_by.at_most_one_pair_per_a
+         forall|n: int| 0 <= n < r@.len() ==> pb_sound(*self, *group, *zones_by_event_type, event_type_a@, event_type_b@, #[trigger] r@[n]), // OBL:C15.matcher.preceded_by.every_pair_is_linked_strictly_ordered_and_passes_where
+         forall|i: int, j: int| pb_partner(*self, *group, *zones_by_event_type, event_type_a@, event_type_b@, i, j) ==> exists|n: int| 0 <= n < r@.len() && is_pair(#[trigger] r@[n], *group, event_type_a@, event_type_b@, i, j, false), // OBL:C15.matcher.preceded_by.every_a_with_a_qualifying_latest_earlier_b_is_matched
+         r@.len() <= rows(*group, event_type_a@).len(), // OBL:C15.matcher.preceded_by.at_most_one_pair_per_a
 {
         let a_indices = rows_of(group, event_type_a);
         let b_indices = rows_of(group, event_type_b);
@@ -201,13 +251,13 @@ impl SequenceMatcher {
         // We iterate through A events and for each, find the most recent B that happened before it
         while a_ptr < a_indices.len() && b_ptr < b_indices.len() 
          invariant
-             a_indices@ == rows(*group, event_type_a), b_indices@ == rows(*group, event_type_b), a_indices@.len() + b_indices@.len() < usize::MAX,
-             zones_of(*zones_by_event_type, event_type_a) == Some(zones_a@), zones_of(*zones_by_event_type, event_type_b) == Some(zones_b@),
+             a_indices@ == rows(*group, event_type_a@), b_indices@ == rows(*group, event_type_b@), a_indices@.len() + b_indices@.len() < usize::MAX,
+             zones_of(*zones_by_event_type, event_type_a@) == Some(zones_a@), zones_of(*zones_by_event_type, event_type_b@) == Some(zones_b@),
              sorted_by_time(*self, zones_a@, a_indices@), sorted_by_time(*self, zones_b@, b_indices@),
              a_ptr <= a_indices@.len(), b_ptr <= b_indices@.len(), results@.len() <= a_ptr, comparisons <= a_ptr + b_ptr,
              b_ptr == 0 || (b_ptr < b_indices@.len() && forall|i: int| a_ptr <= i < a_indices@.len() ==> ts_of(*self, zones_b@, b_indices@[b_ptr as int]) < ts_of(*self, zones_a@, #[trigger] a_indices@[i])),
-             forall|n: int| 0 <= n < results@.len() ==> pb_sound(*self, *group, *zones_by_event_type, event_type_a, event_type_b, #[trigger] results@[n]),
-             forall|i: int, j: int| i < a_ptr && pb_partner(*self, *group, *zones_by_event_type, event_type_a, event_type_b, i, j) ==> exists|n: int| 0 <= n < results@.len() && is_pair(#[trigger] results@[n], *group, event_type_a, event_type_b, i, j, false),
+             forall|n: int| 0 <= n < results@.len() ==> pb_sound(*self, *group, *zones_by_event_type, event_type_a@, event_type_b@, #[trigger] results@[n]),
+             forall|i: int, j: int| i < a_ptr && pb_partner(*self, *group, *zones_by_event_type, event_type_a@, event_type_b@, i, j) ==> exists|n: int| 0 <= n < results@.len() && is_pair(#[trigger] results@[n], *group, event_type_a@, event_type_b@, i, j, false),
          decreases (a_indices@.len() - a_ptr),
 {
              let ghost res0 = results@;
@@ -231,7 +281,7 @@ impl SequenceMatcher {
                 let mut latest_b_ptr = b_ptr;
                 while latest_b_ptr + 1 < b_indices.len() 
                  invariant
-                     b_indices@ == rows(*group, event_type_b), b_ptr <= latest_b_ptr < b_indices@.len(),
+                     b_indices@ == rows(*group, event_type_b@), b_ptr <= latest_b_ptr < b_indices@.len(),
                      ts_a == ts_of(*self, zones_a@, *row_a),
                      ts_of(*self, zones_b@, b_indices@[latest_b_ptr as int]) < ts_a,
                  ensures
@@ -291,12 +341,12 @@ impl SequenceMatcher {
                  assert(forall|n: int| 0 <= n < res0.len() ==> results@[n] == res0[n]);
                  assert(a_ptr as int == ap0 + 1);
                  if results@.len() > res0.len() {
-                     assert(is_pair(results@[res0.len() as int], *group, event_type_a, event_type_b, ap0, b_ptr as int, false));
+                     assert(is_pair(results@[res0.len() as int], *group, event_type_a@, event_type_b@, ap0, b_ptr as int, false));
                  }
-                 assert forall|i: int, j: int| i < a_ptr && pb_partner(*self, *group, *zones_by_event_type, event_type_a, event_type_b, i, j) implies exists|n: int| 0 <= n < results@.len() && is_pair(#[trigger] results@[n], *group, event_type_a, event_type_b, i, j, false) by {
+                 assert forall|i: int, j: int| i < a_ptr && pb_partner(*self, *group, *zones_by_event_type, event_type_a@, event_type_b@, i, j) implies exists|n: int| 0 <= n < results@.len() && is_pair(#[trigger] results@[n], *group, event_type_a@, event_type_b@, i, j, false) by {
                      if i < ap0 {
-                         let n0 = choose|n: int| 0 <= n < res0.len() && is_pair(#[trigger] res0[n], *group, event_type_a, event_type_b, i, j, false);
-                         assert(is_pair(results@[n0], *group, event_type_a, event_type_b, i, j, false));
+                         let n0 = choose|n: int| 0 <= n < res0.len() && is_pair(#[trigger] res0[n], *group, event_type_a@, event_type_b@, i, j, false);
+                         assert(is_pair(results@[n0], *group, event_type_a@, event_type_b@, i, j, false));
                      } else {
                          assert(i == ap0);
                          let lj = b_ptr as int;
@@ -305,7 +355,7 @@ impl SequenceMatcher {
                              if j < lj { assert(ts_of(*self, zones_b@, b_indices@[lj]) < ts_of(*self, zones_a@, a_indices@[i])); }
                              if j > lj { assert(ts_of(*self, zones_b@, b_indices@[lj + 1]) <= ts_of(*self, zones_b@, b_indices@[j])); }
                              assert(j == lj);
-                             assert(is_pair(results@[res0.len() as int], *group, event_type_a, event_type_b, i, j, false));
+                             assert(is_pair(results@[res0.len() as int], *group, event_type_a@, event_type_b@, i, j, false));
                          } else {
                              assert(bp0 == 0);
                              assert(ts_of(*self, zones_b@, b_indices@[0]) <= ts_of(*self, zones_b@, b_indices@[j]));
@@ -346,20 +396,20 @@ impl Clone for RowIndex {
     #[verifier::external_body]
     fn clone(&self) -> (r: Self) ensures r == *self { unimplemented!() }
 }
-pub uninterp spec fn rows(g: GroupedRowIndices, event_type: &str) -> Seq<RowIndex>;
-pub uninterp spec fn zones_of(m: Zones, event_type: &str) -> Option<Seq<CandidateZone>>;
+pub uninterp spec fn rows(g: GroupedRowIndices, event_type: Seq<char>) -> Seq<RowIndex>;
+pub uninterp spec fn zones_of(m: Zones, event_type: Seq<char>) -> Option<Seq<CandidateZone>>;
 pub uninterp spec fn ts_of(m: SequenceMatcher, zones: Seq<CandidateZone>, row: RowIndex) -> u64;
-pub uninterp spec fn where_ok(m: SequenceMatcher, type1: &str, zones1: Seq<CandidateZone>, row1: RowIndex, type2: &str, zones2: Seq<CandidateZone>, row2: RowIndex) -> bool;
+pub uninterp spec fn where_ok(m: SequenceMatcher, type1: Seq<char>, zones1: Seq<CandidateZone>, row1: RowIndex, type2: Seq<char>, zones2: Seq<CandidateZone>, row2: RowIndex) -> bool;
 
 /// E6: stands for `group.rows_by_type.get(event_type).map(|v| v.as_slice()).unwrap_or(&[])`
 #[verifier::external_body]
 pub fn rows_of<'a>(group: &'a GroupedRowIndices, event_type: &str) -> (r: &'a [RowIndex])
-    ensures r@ == rows(*group, event_type)
+    ensures r@ == rows(*group, event_type@)
 { unimplemented!() }
 impl ZoneMap<String, Vec<CandidateZone>> {
     #[verifier::external_body]
     pub fn get(&self, k: &str) -> (r: Option<&Vec<CandidateZone>>)
-        ensures r is Some == zones_of(*self, k) is Some, r is Some ==> r->Some_0@ == zones_of(*self, k)->Some_0
+        ensures r is Some == zones_of(*self, k@) is Some, r is Some ==> r->Some_0@ == zones_of(*self, k@)->Some_0
     { unimplemented!() }
 }
 impl SequenceMatcher {
@@ -369,7 +419,7 @@ impl SequenceMatcher {
     { unimplemented!() }
     #[verifier::external_body]
     pub fn matches_where_clause(&self, event_type_a: &str, zones_a: &[CandidateZone], row_a: &RowIndex, event_type_b: &str, zones_b: &[CandidateZone], row_b: &RowIndex) -> (r: bool)
-        ensures r == where_ok(*self, event_type_a, zones_a@, *row_a, event_type_b, zones_b@, *row_b)
+        ensures r == where_ok(*self, event_type_a@, zones_a@, *row_a, event_type_b@, zones_b@, *row_b)
     { unimplemented!() }
 }
 
@@ -379,21 +429,21 @@ pub open spec fn sorted_by_time(m: SequenceMatcher, zones: Seq<CandidateZone>, r
     forall|i: int, j: int| 0 <= i <= j < rs.len() ==> ts_of(m, zones, #[trigger] rs[i]) <= ts_of(m, zones, #[trigger] rs[j])
 }
 /// result entry p is the pair (i-th a-row, j-th b-row) of this group, a first (`a_first`) or b first
-pub open spec fn is_pair(p: MatchedSequenceIndices, g: GroupedRowIndices, ta: &str, tb: &str, i: int, j: int, a_first: bool) -> bool {
+pub open spec fn is_pair(p: MatchedSequenceIndices, g: GroupedRowIndices, ta: Seq<char>, tb: Seq<char>, i: int, j: int, a_first: bool) -> bool {
     &&& 0 <= i < rows(g, ta).len() && 0 <= j < rows(g, tb).len()
     &&& p.link_value == g.link_value
     &&& p.matched_rows@.len() == 2
-    &&& p.matched_rows@[if a_first { 0int } else { 1int }].0@ == ta@ && p.matched_rows@[if a_first { 0int } else { 1int }].1 == rows(g, ta)[i]
-    &&& p.matched_rows@[if a_first { 1int } else { 0int }].0@ == tb@ && p.matched_rows@[if a_first { 1int } else { 0int }].1 == rows(g, tb)[j]
+    &&& p.matched_rows@[if a_first { 0int } else { 1int }].0@ == ta && p.matched_rows@[if a_first { 0int } else { 1int }].1 == rows(g, ta)[i]
+    &&& p.matched_rows@[if a_first { 1int } else { 0int }].0@ == tb && p.matched_rows@[if a_first { 1int } else { 0int }].1 == rows(g, tb)[j]
 }
 /// FOLLOWED BY: b at the same time or later, and the WHERE conditions hold for the pair
-pub open spec fn fb_sound(m: SequenceMatcher, g: GroupedRowIndices, zm: Zones, ta: &str, tb: &str, p: MatchedSequenceIndices) -> bool {
+pub open spec fn fb_sound(m: SequenceMatcher, g: GroupedRowIndices, zm: Zones, ta: Seq<char>, tb: Seq<char>, p: MatchedSequenceIndices) -> bool {
     exists|i: int, j: int| #[trigger] is_pair(p, g, ta, tb, i, j, true)
         && ts_of(m, zones_of(zm, tb)->Some_0, rows(g, tb)[j]) >= ts_of(m, zones_of(zm, ta)->Some_0, rows(g, ta)[i])
         && where_ok(m, ta, zones_of(zm, ta)->Some_0, rows(g, ta)[i], tb, zones_of(zm, tb)->Some_0, rows(g, tb)[j])
 }
 /// j is the NEAREST b-row at or after a-row i, and the pair passes WHERE
-pub open spec fn fb_partner(m: SequenceMatcher, g: GroupedRowIndices, zm: Zones, ta: &str, tb: &str, i: int, j: int) -> bool {
+pub open spec fn fb_partner(m: SequenceMatcher, g: GroupedRowIndices, zm: Zones, ta: Seq<char>, tb: Seq<char>, i: int, j: int) -> bool {
     &&& 0 <= i < rows(g, ta).len() && 0 <= j < rows(g, tb).len()
     &&& zones_of(zm, ta) is Some && zones_of(zm, tb) is Some
     &&& ts_of(m, zones_of(zm, tb)->Some_0, rows(g, tb)[j]) >= ts_of(m, zones_of(zm, ta)->Some_0, rows(g, ta)[i])
@@ -401,18 +451,37 @@ pub open spec fn fb_partner(m: SequenceMatcher, g: GroupedRowIndices, zm: Zones,
     &&& where_ok(m, ta, zones_of(zm, ta)->Some_0, rows(g, ta)[i], tb, zones_of(zm, tb)->Some_0, rows(g, tb)[j])
 }
 /// PRECEDED BY: b strictly earlier, and the WHERE conditions hold for the pair (b is the first argument of the WHERE check)
-pub open spec fn pb_sound(m: SequenceMatcher, g: GroupedRowIndices, zm: Zones, ta: &str, tb: &str, p: MatchedSequenceIndices) -> bool {
+pub open spec fn pb_sound(m: SequenceMatcher, g: GroupedRowIndices, zm: Zones, ta: Seq<char>, tb: Seq<char>, p: MatchedSequenceIndices) -> bool {
     exists|i: int, j: int| #[trigger] is_pair(p, g, ta, tb, i, j, false)
         && ts_of(m, zones_of(zm, tb)->Some_0, rows(g, tb)[j]) < ts_of(m, zones_of(zm, ta)->Some_0, rows(g, ta)[i])
         && where_ok(m, tb, zones_of(zm, tb)->Some_0, rows(g, tb)[j], ta, zones_of(zm, ta)->Some_0, rows(g, ta)[i])
 }
 /// j is the LATEST b-row strictly before a-row i, and the pair passes WHERE
-pub open spec fn pb_partner(m: SequenceMatcher, g: GroupedRowIndices, zm: Zones, ta: &str, tb: &str, i: int, j: int) -> bool {
+pub open spec fn pb_partner(m: SequenceMatcher, g: GroupedRowIndices, zm: Zones, ta: Seq<char>, tb: Seq<char>, i: int, j: int) -> bool {
     &&& 0 <= i < rows(g, ta).len() && 0 <= j < rows(g, tb).len()
     &&& zones_of(zm, ta) is Some && zones_of(zm, tb) is Some
     &&& ts_of(m, zones_of(zm, tb)->Some_0, rows(g, tb)[j]) < ts_of(m, zones_of(zm, ta)->Some_0, rows(g, ta)[i])
     &&& forall|k: int| j < k < rows(g, tb).len() ==> ts_of(m, zones_of(zm, tb)->Some_0, #[trigger] rows(g, tb)[k]) >= ts_of(m, zones_of(zm, ta)->Some_0, rows(g, ta)[i])
     &&& where_ok(m, tb, zones_of(zm, tb)->Some_0, rows(g, tb)[j], ta, zones_of(zm, ta)->Some_0, rows(g, ta)[i])
+}
+
+/// what both sweeps need (see sorted_by_time)
+pub open spec fn sweep_pre(m: SequenceMatcher, g: GroupedRowIndices, zm: Zones, ta: Seq<char>, tb: Seq<char>) -> bool {
+    &&& rows(g, ta).len() + rows(g, tb).len() < usize::MAX
+    &&& rows(g, ta).len() > 0 && rows(g, tb).len() > 0 ==> zones_of(zm, ta) is Some && zones_of(zm, tb) is Some
+    &&& rows(g, ta).len() > 0 && rows(g, tb).len() > 0 ==> sorted_by_time(m, zones_of(zm, ta)->Some_0, rows(g, ta))
+    &&& rows(g, ta).len() > 0 && rows(g, tb).len() > 0 ==> sorted_by_time(m, zones_of(zm, tb)->Some_0, rows(g, tb))
+}
+/// the three clauses of match_followed_by's contract, as one predicate (used by the dispatching caller)
+pub open spec fn fb_post(m: SequenceMatcher, g: GroupedRowIndices, zm: Zones, ta: Seq<char>, tb: Seq<char>, r: Seq<MatchedSequenceIndices>) -> bool {
+    &&& forall|n: int| 0 <= n < r.len() ==> fb_sound(m, g, zm, ta, tb, #[trigger] r[n])
+    &&& forall|i: int, j: int| fb_partner(m, g, zm, ta, tb, i, j) ==> exists|n: int| 0 <= n < r.len() && is_pair(#[trigger] r[n], g, ta, tb, i, j, true)
+    &&& r.len() <= rows(g, ta).len()
+}
+pub open spec fn pb_post(m: SequenceMatcher, g: GroupedRowIndices, zm: Zones, ta: Seq<char>, tb: Seq<char>, r: Seq<MatchedSequenceIndices>) -> bool {
+    &&& forall|n: int| 0 <= n < r.len() ==> pb_sound(m, g, zm, ta, tb, #[trigger] r[n])
+    &&& forall|i: int, j: int| pb_partner(m, g, zm, ta, tb, i, j) ==> exists|n: int| 0 <= n < r.len() && is_pair(#[trigger] r[n], g, ta, tb, i, j, false)
+    &&& r.len() <= rows(g, ta).len()
 }
 
 } // verus!
